@@ -63,6 +63,24 @@ mod verif_sortcmp {
         std::mem::forget(oa);
         std::mem::forget(ob);
     }
+
+    /// the parallel k-way merge of sorted runs (parallel/merge.rs) == the push sort that produced the runs
+    fn merge_vs_push(ka: u8, kb: u8) {
+        let a = [val(ka)];
+        let b = [val(kb)];
+        let nulls_first: bool = kani::any();
+        let pk = [psort::SortKey {
+            column: 0,
+            direction: psort::SortDirection::Ascending,
+            null_order: if nulls_first { psort::NullOrder::First } else { psort::NullOrder::Last },
+        }];
+        let p = psort::kani_compare_rows(&a, &b, &pk);
+        let q = crate::execution::parallel::kani_compare_values_for_sort(Some(&a[0]), Some(&b[0]), nulls_first);
+        assert!(p == q, "the parallel merge of sorted runs orders two rows differently from the sort that produced the runs");
+        kani::cover!(true);
+        std::mem::forget(a);
+        std::mem::forget(b);
+    }
     fn val_copy(v: &Value) -> Value {
         match v {
             Value::Null => Value::Null,
